@@ -60,53 +60,115 @@ def handler_rule(run, f, rid):
 
 
 def listener_rule(run, f, rid):
+    """Path by path over the listener as one unit, per CoroutineState variant: the paths whose tests of `new_state` are
+    consistent with the variant are the ones that variant can take (a `match`, an `if let .. else if !matches!(..)`
+    chain and a negated early return all give the same sets).  On them: Running arms exactly one 10 ms node and stores
+    it; Suspend/Syscall/Cancelled/Complete/Error disarm the stored node; Ready does neither.  "Disarm" is Monitor::remove,
+    or -- when the author inlined it -- HashSet::remove on the monitor's notify_queue."""
     run.rule(rid, "MonitorListener: Running arms a 10ms deadline node, every other non-Ready state disarms the node stored for this coroutine", floor=7, template="T6 (exhaustive over CoroutineState)")
     b = need(run, rid, f, "<monitor::MonitorListener as coroutine::listener::Listener>::on_state_changed")
     if b is None:
         return
+    b = inl(f, b, keep=(M + "::submit", M + "::remove", M + "::current"))
     cfg = Cfg(b)
     du = DefUse(b)
-    sw = None
-    for blk in b.blocks:
-        if blk["term"]["k"] == "switch":
-            si = switch_info(b, du, blk["id"])
-            if si["kind"] == "discr" and norm(si["adt"] or "").endswith("CoroutineState") and b.name_of(si["place"]["l"]) == "new_state":
-                sw = si
-    if sw is None:
-        run.fail(rid, "on_state_changed/match", b.loc(), "no match on new_state")
-        return
-    t = b.blocks[sw["bid"]]["term"]
-    sub = find_calls(b, callee_is(M + "::submit"))
-    rem = find_calls(b, callee_is(M + "::remove"))
+    VARS = ("Ready", "Running", "Suspend", "Syscall", "Cancelled", "Complete", "Error")
+    ns_local = [l for l in range(1, b.argc + 1) if b.name_of(l) == "new_state"]
+    sub = {x for (x, _t) in find_calls(b, callee_is(M + "::submit"))}
+    rem = {x for (x, _t) in find_calls(b, callee_is(M + "::remove"))}
+    for (x, t) in find_calls(b, callee_is("std::collections::HashSet::remove")):
+        if "notify_queue" in repr(describe_val(b, du, t["args"][0])) or "notify_queue" in (field_chain(b, du, t["args"][0]) or []):
+            rem.add(x)
     put = find_calls(b, callee_is("coroutine::local::CoroutineLocal::put"))
     get = find_calls(b, callee_is("coroutine::local::CoroutineLocal::get"))
-    for v in ("Ready", "Running", "Suspend", "Syscall", "Cancelled", "Complete", "Error"):
-        arm = sw["arms"].get(v, t["otherwise"])
-        r = cfg.reachable({arm})
-        s_ = [x for (x, _t) in sub if x in r]
-        r_ = [x for (x, _t) in rem if x in r]
+    mc = find_calls(b, callee_is(M + "::current"))
+    if not ns_local or not sub or not rem:
+        run.fail(rid, "on_state_changed/match", b.loc(), "the listener no longer arms (Monitor::submit) and disarms (Monitor::remove) on its new_state parameter")
+        return
+    from analysis.table import outcome_on_path, result_outcomes
+    w = PathWalker(b)
+    paths = [(p_, c_) for (p_, c_, sv) in w.walk(0, lambda bid, t: ("return",) if t["k"] == "return" else None) if sv[0] == "return"]
+
+    def allowed(conds):
+        """variants of new_state this path's tests leave possible"""
+        vs = set(VARS)
+        for cd in conds:
+            if cd[0] == "variant" and cd[1].split("@", 1)[0].split(".", 1)[0] in ("new_state",) and set(cd[2]) <= set(VARS):
+                vs &= set(cd[2])
+        return vs
+
+    n_ex = n_inf = n_und = 0
+    per = {v: [] for v in VARS}
+    for (pth, conds) in paths:
+        # the monitor-thread exemption: on the monitor thread nothing is armed or disarmed; those paths are judged apart
+        on_mon = outcome_on_path(b, du, pth, [x for x in pth if x in {y for (y, _t) in mc}][0]) if any(x in {y for (y, _t) in mc} for x in pth) else None
+        oc, feas = result_outcomes(b, du, pth)
+        if not feas:
+            n_inf += 1
+            continue
+        if mc and on_mon is None:
+            # Monitor::current().is_some() is read through Option::is_some: ask the bool test
+            isn = [x for x in pth if norm(b.blocks[x]["term"].get("callee") or "") in ("std::option::Option::is_some", "std::option::Option::is_none")]
+            if isn:
+                v_ = outcome_on_path(b, du, pth, isn[0])
+                if v_ is not None:
+                    on_mon = v_ if norm(b.blocks[isn[0]]["term"]["callee"]).endswith("is_some") else (not v_)
+        if mc and on_mon is None:
+            n_und += 1
+            continue
+        n_ex += 1
+        for v in allowed(conds):
+            per[v].append((pth, bool(on_mon)))
+    if not run.paths(rid, "on_state_changed", b.loc(), n_ex, n_inf, n_und):
+        return
+    if n_und:
+        run.fail(rid, "on_state_changed/monitor-thread-exempt", b.loc(), "on %d path(s) the monitor-thread test could not be read off the path: those paths were not judged" % n_und)
+    for v in VARS:
         run.count("table_rows")
-        ok = True
-        why = ""
-        if v == "Running":
-            ok = len(s_) == 1 and not r_
-            if ok:
-                ts = describe_val(b, du, sub[0][1]["args"][0])
-                ok = ts[0] == "call" and ts[1] == "common::get_timeout_time" and "from_millis" in repr(ts) and "'10'" in repr(ts)
-                why = "deadline %r" % (ts,)
-                pk = [x for (x, _t) in put if x in r]
-                ok = ok and len(pk) == 1 and any(y == s_[0] for (y, _t) in backward(b, b.blocks[pk[0]]["term"]["args"][2], du, at=(pk[0], "term")).calls)
-        elif v == "Ready":
-            ok = not s_ and not r_
+        ps = per[v]
+        why = None
+        if not ps:
+            why = "no path of the listener is consistent with new state %s" % v
+        for (pth, on_mon) in ps:
+            ns, nr = len([x for x in pth if x in sub]), len([x for x in pth if x in rem])
+            if on_mon:
+                if ns or nr:
+                    why = why or "on the monitor thread a node is armed/disarmed"
+                continue
+            if v == "Running":
+                if ns != 1 or nr:
+                    why = why or "Running: %d submit / %d remove on a path (expected one submit, no remove)" % (ns, nr)
+                else:
+                    sx = [x for x in pth if x in sub][0]
+                    ts = describe_val(b, du, b.blocks[sx]["term"]["args"][0])
+                    if not (ts[0] == "call" and ts[1] == "common::get_timeout_time" and "from_millis" in repr(ts) and "'10'" in repr(ts)):
+                        why = why or "Running: the deadline is not get_timeout_time(10 ms) (%r)" % (ts,)
+                    pk = [x for x in pth if x in {y for (y, _t) in put}]
+                    # unless the path shows submit FAILED, its node must be stored (an outcome nobody looks at may have
+                    # been a success: `_ = Monitor::submit(..)` arms a node that can never be disarmed)
+                    if result_outcomes(b, du, pth)[0].get(sx) != "err" and not (len(pk) == 1 and any(y == sx for (y, _t) in backward(b, b.blocks[pk[0]]["term"]["args"][2], du, at=(pk[0], "term")).calls)):
+                        why = why or "Running: the node returned by submit is not stored in the coroutine's local storage"
+            elif v == "Ready":
+                if ns or nr:
+                    why = why or "Ready: %d submit / %d remove (expected neither)" % (ns, nr)
+            else:
+                gk = [x for x in pth if x in {y for (y, _t) in get}]
+                if ns:
+                    why = why or "%s: a node is armed" % v
+                elif not gk:
+                    why = why or "%s: the stored node is not looked up" % v
+                elif some_on_path(b, du, pth, gk[0]) and nr != 1:
+                    why = why or "%s: a stored node is not disarmed exactly once (%d remove)" % (v, nr)
+                elif nr == 1:
+                    rx = [x for x in pth if x in rem][0]
+                    ra = b.blocks[rx]["term"]["args"]
+                    node_arg = ra[0] if norm(b.blocks[rx]["term"].get("callee") or "") == M + "::remove" else ra[1]
+                    if not any(y in gk for (y, _t) in backward(b, node_arg, du, at=(rx, "term")).calls):
+                        why = why or "%s: the node disarmed is not the one stored for this coroutine" % v
+        if why:
+            run.fail(rid, "on_state_changed/" + v, b.loc(), "new state %s: %s; Running must arm one 10ms node and store it, Suspend/Syscall/Cancelled/Complete/Error must disarm the stored node, Ready does nothing" % (v, why))
         else:
-            ok = len(r_) == 1 and not s_
-            if ok:
-                gk = [x for (x, _t) in get if x in r]
-                ok = any(y in gk for (y, _t) in backward(b, b.blocks[r_[0]]["term"]["args"][0], du, at=(r_[0], "term")).calls)
-        if ok:
-            run.ok(rid, "on_state_changed/" + v, {"submit": len(s_), "remove": len(r_)})
-        else:
-            run.fail(rid, "on_state_changed/" + v, b.loc(), "new state %s: submit sites %d, remove sites %d %s; Running must arm one 10ms node and store it, Suspend/Syscall/Cancelled/Complete/Error must disarm the stored node, Ready does nothing" % (v, len(s_), len(r_), why))
+            run.ok(rid, "on_state_changed/" + v, {"paths": len(ps)})
     # same key for put and get
     keys = set()
     for (x, tt) in put + get:
@@ -115,12 +177,21 @@ def listener_rule(run, f, rid):
         run.ok(rid, "on_state_changed/node-key", "put and get use the same key")
     else:
         run.fail(rid, "on_state_changed/node-key", b.loc(), "the node is stored and looked up under different keys")
-    # the early return only when running on the monitor thread
-    mc = find_calls(b, callee_is(M + "::current"))
-    if mc and all(cfg.dominates(mc[0][0], x) for (x, _t) in sub + rem):
-        run.ok(rid, "on_state_changed/monitor-thread-exempt", "skips only when Monitor::current() is set")
-    else:
+    if mc and not n_und:
+        run.ok(rid, "on_state_changed/monitor-thread-exempt", "arms/disarms only when Monitor::current() is not set (judged per path)")
+    elif not mc:
         run.fail(rid, "on_state_changed/monitor-thread-exempt", b.loc(), "arming/disarming is not guarded by the monitor-thread test")
+
+
+def oc_ok(b, du, pth, call_bid):
+    from analysis.table import result_outcomes
+    return result_outcomes(b, du, pth)[0].get(call_bid) == "ok"
+
+
+def some_on_path(b, du, pth, call_bid):
+    """the Option returned by the call at call_bid was Some on this path"""
+    from analysis.table import result_outcomes
+    return result_outcomes(b, du, pth)[0].get(call_bid) == "ok"
 
 
 def overdue_rule(run, f, rid):
